@@ -15,6 +15,7 @@ EXPLANATION = ("(R05.1, type-level, every instantiation) in any struct that owns
 EXPLANATION += " R05.4 also requires drop_in_place to be instantiated at the payload type (not a ManuallyDrop / MaybeUninit wrapper, whose drop glue is empty) and to sit on the needs_drop == true side; (R05.8) second-layer who-may-free: the zero-copy containers' unleak_slot_* / release_leaked_* (which run the destructor on the slot's bytes) are called only by the container's consume and the channels' try_cancel_slot_reserve, and each of them deallocates its own argument exactly once on every path; (R05.9) buffered payloads leave a ring only through the counter protocol of C02 R02.1 (a head that is jumped forward forgets ManuallyDrop payloads)."
 EXPLANATION += " R05.2 also imports C14's R14.1 (every reference-count mutation is one atomic add / subtract: a `store(1 + n)` forgets existing handles); R05.4 also requires dealloc_ref to release through dealloc_id (C13 R13.2)."
 EXPLANATION += ' (R05.10) no library function drops a value of a payload type parameter through a reference (an assignment `*slot = item` into a ring / pool slot drops the stale copy of an already-delivered payload from the second lap on); R05.4 / R05.2 imports as listed under C13 / C14.'
+EXPLANATION += ' R05.3 also requires `From<OgreUnique> for OgreArc` to go through into_ogre_arc (C14 R14.8).'
 ASSUMPTIONS = ["setters initialise slots without reading/dropping previous bytes; handles do not outlive their channel (property's own assumptions)",
                "races between a late reader and slot recycling beyond the refcount protocol are not decided"]
 
